@@ -23,8 +23,14 @@
 (*   - the call's final operation (Receive, CloseAndReceive, CallUnary ...) *)
 (*     fails with a coded error: the context's code for "ctxc" / "ctxd".    *)
 (*                                                                         *)
+(* A message may also be one the client's codec refuses to marshal          *)
+(* (`poison` = its index, 0 = none): that Send fails with code internal     *)
+(* before anything of it is written, and -- where the library sends the     *)
+(* message itself (CallUnary, CallServerStream) -- so does the call, without *)
+(* blocking.                                                                *)
+(*                                                                         *)
 (* sc = [proto, kind : "unary"|"client"|"server"|"bidi", sizes : Seq(Nat),  *)
-(*       cut : Nat, fault : "err"|"ctxc"|"ctxd"]                            *)
+(*       cut : Nat, fault : "err"|"ctxc"|"ctxd", poison : Nat]              *)
 (***************************************************************************)
 EXTENDS Integers, Sequences, FiniteSets, TLC
 
@@ -38,8 +44,9 @@ VARIABLES sc,
 
 vars == <<sc, consumed, struck, si, part, results, final>>
 
+Poison(s) == IF "poison" \in DOMAIN s THEN s.poison ELSE 0
 RECURSIVE EndOf(_, _)
-EndOf(s, i) == IF i = 0 THEN 0 ELSE 5 + s.sizes[i] + EndOf(s, i - 1)
+EndOf(s, i) == IF i = 0 THEN 0 ELSE (IF i = Poison(s) THEN 0 ELSE 5 + s.sizes[i]) + EndOf(s, i - 1)
 StartOf(s, i) == EndOf(s, i - 1)
 Total(s) == EndOf(s, Len(s.sizes))
 Cut(s) == IF s.cut > Total(s) THEN Total(s) ELSE s.cut
@@ -51,10 +58,12 @@ CtxCode(s) == IF s.fault = "ctxc" THEN 1 ELSE 4
 \*  byte after the strike: a message that ends with exactly that byte may or may not count as sent)
 Sent(s, i) == EndOf(s, i) <= Cut(s)
 SurelySent(s, i) == IF CtxFault(s) THEN EndOf(s, i) <= Cut(s) - 1 ELSE Sent(s, i)
-SendOutcomes(s, i) == IF SurelySent(s, i) THEN {"ok"}
+SendOutcomes(s, i) == IF i = Poison(s) THEN {"internal"}
+                      ELSE IF SurelySent(s, i) THEN {"ok"}
                       ELSE (IF Sent(s, i) THEN {"ok"} ELSE {})
                            \cup (IF CtxFault(s) THEN {"eof", "ctx"} ELSE {"eof"})
-FinalCodes(s) == IF CtxFault(s) THEN {CtxCode(s)} ELSE 1..16
+FinalCodes(s) == IF Poison(s) > 0 /\ s.kind \in {"unary", "server"} THEN {13}
+                 ELSE IF CtxFault(s) THEN {CtxCode(s)} ELSE 1..16
 
 (* ---- state machine: transport and writer as separate processes ---- *)
 InitWith(s) == /\ sc = s /\ consumed = 0 /\ struck = FALSE /\ si = 1 /\ part = "idle"
@@ -81,8 +90,12 @@ TStrike == /\ ~struck /\ (Cut(sc) = 0 \/ consumed = Cut(sc) - 1)
 Dead == struck /\ (consumed = Cut(sc) \/ (CtxFault(sc) /\ consumed = Cut(sc) - 1))
 
 \* writer: Send(m_si) = write(prefix); write(payload)
-WBegin == /\ final = 0 /\ si <= Len(sc.sizes) /\ part = "idle" /\ part' = "prefix"
+WBegin == /\ final = 0 /\ si <= Len(sc.sizes) /\ si # Poison(sc) /\ part = "idle" /\ part' = "prefix"
           /\ UNCHANGED <<sc, consumed, struck, si, results, final>>
+\* the codec refuses the message: the Send fails before anything is written
+WPoison == /\ final = 0 /\ si = Poison(sc) /\ part = "idle"
+           /\ results' = Append(results, "internal") /\ si' = si + 1
+           /\ UNCHANGED <<sc, consumed, struck, part, final>>
 \* a write returns nil once the transport has consumed all of it
 WPrefixDone == /\ part = "prefix" /\ consumed >= StartOf(sc, si) + 5
                /\ part' = "payload" /\ UNCHANGED <<sc, consumed, struck, si, results, final>>
@@ -97,19 +110,19 @@ WFail == /\ part \in {"prefix", "payload"} /\ Dead
          /\ si' = si + 1 /\ part' = "idle"
          /\ UNCHANGED <<sc, consumed, struck, final>>
 \* the final operation: the call fails with a coded error
-WFinal == /\ final = 0 /\ part = "idle" /\ Dead
+WFinal == /\ final = 0 /\ part = "idle" /\ (Dead \/ Poison(sc) > 0)
           /\ \E c \in FinalCodes(sc) : final' = c
           /\ UNCHANGED <<sc, consumed, struck, si, part, results>>
 
-Next == TTake \/ TStrike \/ WBegin \/ WPrefixDone \/ WPayloadDone \/ WFail \/ WFinal
+Next == TTake \/ TStrike \/ WBegin \/ WPoison \/ WPrefixDone \/ WPayloadDone \/ WFail \/ WFinal
 
 (* ---- properties ---- *)
 \* the state machine agrees with the oracle: a Send's result depends on the scenario alone
 SendsAsOracle == \A i \in 1..Len(results) : results[i] \in SendOutcomes(sc, i)
 \* C04 / C15: nothing sent after the fault is reported as sent
-NoLateSuccess == \A i \in 1..Len(results) : results[i] = "ok" => Sent(sc, i)
+NoLateSuccess == \A i \in 1..Len(results) : results[i] = "ok" => Sent(sc, i) /\ i # Poison(sc)
 \* C15: a call whose context ended ends with the context's code
-CtxFinal == (final # 0 /\ CtxFault(sc)) => final = CtxCode(sc)
+CtxFinal == (final # 0 /\ CtxFault(sc) /\ Poison(sc) = 0) => final = CtxCode(sc)
 \* C14: the writer is never left blocked: once the transport is dead every pending write can finish
 NoBlockedWrite == (Dead /\ part # "idle") => (ENABLED WPrefixDone \/ ENABLED WPayloadDone \/ ENABLED WFail)
 =============================================================================
